@@ -77,15 +77,15 @@ for lit in LITS:
     SYNTAXES.append(('simple', 'OCTET STRING', ('size', [(lit, "'ffff'H")])))
 
 TEXTS = ['An object.', '', 'two  spaces', 'multi\n    line\n\ttext', "it's -- not a comment END ::= { x 1 }",
-         'café 中', 'crlf\r\ninside']
+         'café 中', 'crlf\r\ninside', 'mixed\rline\nends\r\nin one\rtext']
 
 
 def entries(tier):
     thorough = tier == 'thorough'
     out = []
 
-    def add(eid, mods, v1=False):
-        out.append({'id': eid, 'mods': mods if isinstance(mods, list) else [mods], 'v1': v1})
+    def add(eid, mods, v1=False, only=None):
+        out.append({'id': eid, 'mods': mods if isinstance(mods, list) else [mods], 'v1': v1, 'only': only})
 
     # --- OBJECT-TYPE: all optional part subsets
     accesses = [('MAX-ACCESS', 'read-only'), ('ACCESS', 'read-write'), None]
@@ -115,6 +115,12 @@ def entries(tier):
                              [(0, 'NetworkAddress'), (0, 'INTEGER')]]):
         add('ot-index-v1-%d' % i, mod([ot(index=idx, access=('ACCESS', 'read-only'), status='mandatory')]), v1=True)
 
+    # words that only the SMIv1 keyword set reserves are ordinary identifiers for the strict dialect
+    add('v2only-0', mod([ot(syntax=('ref', 'NetworkAddress'))]), only=['smiV2'])
+    add('v2only-1', mod([{'k': 'value', 'name': 'a', 'oid': ['x', 1]}], imports=[('OTHER-MIB', ['NetworkAddress', 'b'])]), only=['smiV2'])
+    add('v2only-2', mod([{'k': 'type', 'name': 'NetworkAddress', 'syntax': ('simple', 'OCTET STRING', ('size', [(4,)]))}]), only=['smiV2'])
+    add('v2only-3', mod([{'k': 'type', 'name': 'Row', 'syntax': ('seq', [('addr', 'NetworkAddress'), ('n', 'INTEGER')])}]), only=['smiV2'])
+
     # --- value declarations and names
     for i, name in enumerate(['foo', 'fooBar', 'foo-bar2', '1abc', 'Upper', 'x9']):
         add('value-name-%d' % i, mod([{'k': 'value', 'name': name, 'oid': ['enterprises', 1]}]))
@@ -138,14 +144,15 @@ def entries(tier):
             add('tc-%s-%s-%d' % (display, ref, j),
                 mod([{'k': 'tc', 'name': 'MyTc', 'display': display, 'status': 'current', 'descr': 'A TC.',
                       'ref': ref, 'syntax': syn}]))
-    for i, body in enumerate([' { a INTEGER, b OCTET STRING }', '\n{\n  a\n  INTEGER\n}', ' { }', '{ x [0] IMPLICIT Foo -- c\n }']):
+    for i, body in enumerate([' { a INTEGER, b OCTET STRING }', '\n{\n  a\n  INTEGER\n}', ' { }', '{ x [0] IMPLICIT Foo -- c\n }',
+                              '\r{\n a\r INTEGER\r\n}']):
         add('choice-%d' % i, mod([{'k': 'choice', 'name': 'MyChoice', 'body': body},
                                   {'k': 'value', 'name': 'after', 'oid': ['x', 1]}]))
 
     # --- MACRO, EXPORTS
     for i, body in enumerate([' ::= BEGIN TYPE NOTATION ::= "x" VALUE NOTATION ::= value(VALUE OBJECT IDENTIFIER) ',
                               '\n::=\nBEGIN\n  TYPE NOTATION ::=\n     "STATUS" Status\n  Status ::= "current" | "obsolete"\n',
-                              ' ']):
+                              ' ', '\n::= BEGIN\r  mixed\n  line ends\r\n  in the body\r']):
         for j, mname in enumerate(['OBJECT-TYPE', 'MODULE-IDENTITY', 'TRAP-TYPE', 'NOTIFICATION-TYPE',
                                    'OBJECT-IDENTITY', 'TEXTUAL-CONVENTION', 'OBJECT-GROUP', 'NOTIFICATION-GROUP',
                                    'MODULE-COMPLIANCE', 'AGENT-CAPABILITIES']):
@@ -154,7 +161,7 @@ def entries(tier):
             add('macro-%d-%d' % (i, j), mod([{'k': 'value', 'name': 'before', 'oid': ['x', 1]},
                                              {'k': 'macro', 'name': mname, 'body': body},
                                              {'k': 'value', 'name': 'after', 'oid': ['x', 2]}]))
-    for i, body in enumerate([' a, b, C', '\n  a,\n  b -- c\n', ' ']):
+    for i, body in enumerate([' a, b, C', '\n  a,\n  b -- c\n', ' ', '\n a,\r b,\r\n c\r']):
         add('exports-%d' % i, mod([{'k': 'value', 'name': 'a', 'oid': ['x', 1]}], exports=body))
         add('exports-imp-%d' % i, mod([{'k': 'value', 'name': 'a', 'oid': ['x', 1]}], exports=body,
                                       imports=[('SNMPv2-SMI', ['x'])]))
